@@ -23,6 +23,8 @@ pub struct Case {
     pub tseed: u32,
     pub learn_step: bool,
     pub isolation: bool,
+    /// additive skip connections (used by C16; empty for C01)
+    pub connects: Vec<(usize, usize)>,
 }
 
 pub fn conv_nonunit(l: &LayerSpec) -> bool {
@@ -62,7 +64,7 @@ fn decode(tape: &[u32], tier: Tier) -> Case {
             spec.layers.push(LayerSpec::Dense { out: t.usize(1, 5), act: ActK::Sigmoid, bias: t.bool(), dropout: None });
         }
     }
-    Case { spec, obj, softmax_ce, wseed: t.raw(), wmode: 1 + 2 * t.pick(2) as u32, xseed: t.raw(), tseed: t.raw(), learn_step: t.chance(1, 3), isolation }
+    Case { spec, obj, softmax_ce, wseed: t.raw(), wmode: 1 + 2 * t.pick(2) as u32, xseed: t.raw(), tseed: t.raw(), learn_step: t.chance(1, 3), isolation, connects: vec![] }
 }
 
 #[derive(Clone, Copy, PartialEq)]
@@ -79,8 +81,8 @@ fn smode(obj: ObjK, softmax_ce: bool) -> SMode {
     }
 }
 
-fn scalar_ref(spec: &NetSpec, ps: &RefParams, x: &[f64], t: &[f64], obj: ObjK, mode: SMode, g0: &[f64]) -> f64 {
-    let f = ref_forward(spec, ps, x, &[]);
+fn scalar_ref(spec: &NetSpec, ps: &RefParams, x: &[f64], t: &[f64], obj: ObjK, mode: SMode, g0: &[f64], connects: &[(usize, usize)]) -> f64 {
+    let f = ref_forward(spec, ps, x, connects);
     let out = f.outs.last().unwrap();
     match mode {
         SMode::Loss => rm::loss(obj, out, t),
@@ -125,7 +127,7 @@ fn sample_elements(ps: &[(PRef, Tensor)], seed: u32, cap: usize) -> Vec<(usize, 
     out
 }
 
-fn check(case: &Case, ev: &mut CaseEv, tier: Tier) -> CheckResult {
+pub fn check(case: &Case, ev: &mut CaseEv, tier: Tier) -> CheckResult {
     let spec = &case.spec;
     let finding: Option<&'static str> = if spec.layers.iter().any(conv_nonunit) {
         Some("conv_backward_nonunit")
@@ -151,7 +153,16 @@ fn check(case: &Case, ev: &mut CaseEv, tier: Tier) -> CheckResult {
     }
     ev.class(format!("objective:{:?}", case.obj));
 
-    let mut net = build(spec).map_err(|p| Fail::new(format!("valid architecture rejected: {} ({:?})", p, spec)))?;
+    let connects = case.connects.clone();
+    let build_c = |spec: &NetSpec| -> Result<Network, String> {
+        let mut n = build(spec)?;
+        for (a, b) in &connects {
+            let (a, b) = (*a, *b);
+            catch(std::panic::AssertUnwindSafe(|| n.connect(a, b)))?;
+        }
+        Ok(n)
+    };
+    let mut net = build_c(spec).map_err(|p| Fail::new(format!("valid architecture rejected: {} ({:?}, connections {:?})", p, spec, case.connects)))?;
     let ps = seeded_params(&net, spec, case.wseed, case.wmode, 1.5);
     apply_params(&mut net, &ps);
     let rps = to_ref_params(&ps);
@@ -161,7 +172,7 @@ fn check(case: &Case, ev: &mut CaseEv, tier: Tier) -> CheckResult {
     let xt = tens::build(&spec.input, &x);
 
     // base point in the reference
-    let rf = ref_forward(spec, &rps, &xd, &[]);
+    let rf = ref_forward(spec, &rps, &xd, &case.connects);
     let out_ref = rf.outs.last().unwrap().clone();
     let out_dims = rf.out_dims.last().unwrap().clone();
     if !(rf.kink > 2e-3 && rf.tie > 2e-3) {
@@ -263,7 +274,7 @@ fn check(case: &Case, ev: &mut CaseEv, tier: Tier) -> CheckResult {
             let mut b = xd.clone();
             a[i] += h;
             b[i] -= h;
-            let d = (scalar_ref(spec, &rps, &a, &td, case.obj, mode, &g0d) - scalar_ref(spec, &rps, &b, &td, case.obj, mode, &g0d)) / (2.0 * h);
+            let d = (scalar_ref(spec, &rps, &a, &td, case.obj, mode, &g0d, &case.connects) - scalar_ref(spec, &rps, &b, &td, case.obj, mode, &g0d, &case.connects)) / (2.0 * h);
             gref_inf = gref_inf.max(d.abs());
             refs.push(d);
         }
@@ -315,10 +326,10 @@ fn check(case: &Case, ev: &mut CaseEv, tier: Tier) -> CheckResult {
                     (*r, tens::build(&d, &f.iter().zip(pert.iter()).map(|(a, b)| a + b).collect::<Vec<f32>>()))
                 })
                 .collect();
-            let mut n2 = build(spec).map_err(Fail::new)?;
+            let mut n2 = build_c(spec).map_err(Fail::new)?;
             apply_params(&mut n2, &ps2);
             let o2 = catch(|| tens::flat(&n2.predict(&xt))).map_err(Fail::new)?;
-            let r2 = ref_forward(spec, &to_ref_params(&ps2), &xd, &[]);
+            let r2 = ref_forward(spec, &to_ref_params(&ps2), &xd, &case.connects);
             let sc = r2.outs.last().unwrap().iter().fold(1.0f64, |a, v| a.max(v.abs()));
             if !(r2.kink > 1e-4 && r2.tie > 1e-4) {
                 continue;
@@ -344,7 +355,7 @@ fn check(case: &Case, ev: &mut CaseEv, tier: Tier) -> CheckResult {
             let mut b = rps.clone();
             a[*pi].1[*e] = v0 + h;
             b[*pi].1[*e] = v0 - h;
-            (scalar_ref(spec, &a, &xd, &td, case.obj, mode, &g0d) - scalar_ref(spec, &b, &xd, &td, case.obj, mode, &g0d)) / (2.0 * h)
+            (scalar_ref(spec, &a, &xd, &td, case.obj, mode, &g0d, &case.connects) - scalar_ref(spec, &b, &xd, &td, case.obj, mode, &g0d, &case.connects)) / (2.0 * h)
         } else {
             // library's own forward + loss, f32, central differences with Richardson extrapolation
             let d_at = |h: f32| -> Result<f64, String> {
@@ -356,7 +367,7 @@ fn check(case: &Case, ev: &mut CaseEv, tier: Tier) -> CheckResult {
                     f[*e] += sgn * h;
                     ps2[*pi].1 = tens::build(&dims, &f);
                     // exact step actually taken in f32
-                    let mut n2 = build(spec)?;
+                    let mut n2 = build_c(spec)?;
                     apply_params(&mut n2, &ps2);
                     vals[k] = scalar_lib(&n2, &objf, &xt, &tt, mode, &g0)?;
                 }
@@ -396,7 +407,7 @@ fn check(case: &Case, ev: &mut CaseEv, tier: Tier) -> CheckResult {
     // --- end to end through the public API: one plain-SGD learn() step on this sample
     if case.learn_step && !case.isolation {
         let lr = 0.125f32;
-        let mut n3 = build(spec).map_err(Fail::new)?;
+        let mut n3 = build_c(spec).map_err(Fail::new)?;
         apply_params(&mut n3, &ps);
         n3.set_objective(lib_obj(case.obj), None);
         n3.set_optimizer(optimizer::SGD::create(lr, None));
